@@ -31,6 +31,9 @@ def np_reference(op, args):
         if any(_sym(a) for a in args):
             return npx.exact_solve(args[0], args[1])
         return np.linalg.solve(np.array(args[0].tolist(), dtype=float), np.array(args[1].tolist(), dtype=float))
+    if op.group == 'fft' and _sym(args[0]):
+        # numpy.fft on symbols: the exact DFT sum (n in {1, 2, 4})
+        return npx._exact_dft(args[0], op.meta.get('n'), op.meta.get('axis', -1), op.meta['inverse'])
     return op.npfn(*args)
 
 
@@ -46,10 +49,23 @@ def _num(a):
     return a
 
 
-def h_zeroth(ctx, opname, D, P):
+def h_zeroth(ctx, opname, D, P, scale=None):
     algopy = symx.load_algopy()
     op = O.by_name()[opname]
     raw = [O.make_input(ctx, a, 'a%d' % k, D, P) for k, a in enumerate(op.args)]
+    if scale is not None:
+        # arguments of tiny magnitude: x_0 = scale * t with t in the unit box.  The float replay
+        # compares with NumPy to a RELATIVE tolerance there (opts float_rel), which separates
+        # log1p(x) from log(1 + x), expm1(x) from exp(x) - 1, ...
+        from fractions import Fraction
+        c = S.const(Fraction(scale)) if ctx.mode == 'sym' else float(Fraction(scale))
+        for k, a in enumerate(op.args):
+            if a.kind == 'utpm':
+                for idx in np.ndindex(*raw[k][0].shape):
+                    t = raw[k][0][idx]
+                    ctx.assume(t > 0)
+                    ctx.assume(t < 1)
+                    raw[k][0][idx] = t * c
     if 'neq' in op.tags:
         for idx in np.ndindex(*raw[0][0].shape):
             ctx.assume(raw[0][0][idx] != raw[1][0][idx])
@@ -230,6 +246,8 @@ def units(tier, seed):
         if op.npfn is None and not (op.name.startswith('inv') or op.name.startswith('solve')):
             continue
         add('zeroth/%s/D%d,P%d' % (op.name, D, P), 'h_zeroth', opname=op.name, D=D, P=P)
+        if len(op.args) == 1 and op.group in ('elementwise', 'special') and op.args[0].dom in ('any', 'gtm1', 'abs1', 'unit', 'pos'):
+            add('zeroth/%s/tiny argument/D2,P1' % op.name, 'h_zeroth', o={'float_rel': 1e-11}, opname=op.name, D=2, P=1, scale='1/10000000000000')
     for cmpop in CMP:
         for rkind in ('utpm', 'scalar'):
             for shape in ((), (2,), (2, 2)) if tier != 'quick' else ((), (2,)):
